@@ -269,4 +269,56 @@ theorem perm_linearizer_source (e : Evals) (ch : Challenges) (zpoly s4poly : F) 
     toF_fneg, toF_zero]
   src_close
 
+/-! ### `proof.rs`: order of the widget terms, quotient terms, `r_0` -/
+
+/-- `append_linearization_commitment_terms` calls the six widgets in the order of the model's `linearizationTerms`
+    (arithmetic block of 6 terms, then range, logic, fixed-base, curve addition, then the two permutation terms) -/
+theorem verify_call_order :
+    verify_lin_terms_calls = ["arithmetic", "range", "logic", "fixed_base", "variable_base", "permutation"] := by
+  decide
+
+/-- the four quotient terms `−z_h, z^n·(−z_h), z^{2n}·(−z_h), z^{3n}·(−z_h)` on `t_low … t_fourth` -/
+def quotientScalars (zh : Nat) : List Nat :=
+  let zhNeg := fneg zh
+  let zPowN := fadd zh 1
+  let zN := fmul zPowN zhNeg
+  let z2N := fmul (fsq zPowN) zhNeg
+  let z3N := fmul z2N zPowN
+  [zhNeg, zN, z2N, z3N]
+
+theorem linearizationTerms_quotient (k : VKey) (p : ProofM) (ch : Challenges) (zh l1 : Nat) :
+    (linearizationTerms k p ch zh l1).drop 12
+      = [((quotientScalars zh).getD 0 0, p.tLow), ((quotientScalars zh).getD 1 0, p.tMid),
+         ((quotientScalars zh).getD 2 0, p.tHigh), ((quotientScalars zh).getD 3 0, p.tFourth)] := by
+  rfl
+
+theorem verify_lin_terms_source (zh : Nat) :
+    verify_lin_terms (A := F) (z_h_eval := toF zh)
+    = [(toF ((quotientScalars zh).getD 0 0), "self_t_low_comm_0"), (toF ((quotientScalars zh).getD 1 0), "self_t_mid_comm_0"),
+       (toF ((quotientScalars zh).getD 2 0), "self_t_high_comm_0"), (toF ((quotientScalars zh).getD 3 0), "self_t_fourth_comm_0")] := by
+  simp only [verify_lin_terms, quotientScalars, List.getD_cons_zero, List.getD_cons_succ, toF_fmul, toF_fadd, toF_fsq,
+    toF_fneg, toF_one]
+  first
+    | done
+    | (refine List.cons_eq_cons.mpr ⟨Prod.ext (by ring1) rfl, List.cons_eq_cons.mpr ⟨Prod.ext (by ring1) rfl,
+        List.cons_eq_cons.mpr ⟨Prod.ext (by ring1) rfl, List.cons_eq_cons.mpr ⟨Prod.ext (by ring1) rfl, rfl⟩⟩⟩⟩)
+
+/-- `r_0` of `Proof::verify` and of `Proof::verify_legacy` is the model's `r0Eval` -/
+theorem verify_r0_source (e : Evals) (ch : Challenges) (l1 pi : Nat) :
+    verify_r0 (A := F) (alpha := toF ch.alpha) (beta := toF ch.beta) (gamma := toF ch.gamma) (l1_eval := toF l1)
+      (pi_eval := toF pi) (self_evaluations_a_eval := toF e.a) (self_evaluations_b_eval := toF e.b)
+      (self_evaluations_c_eval := toF e.c) (self_evaluations_d_eval := toF e.d)
+      (self_evaluations_s_sigma_1_eval := toF e.s1) (self_evaluations_s_sigma_2_eval := toF e.s2)
+      (self_evaluations_s_sigma_3_eval := toF e.s3) (self_evaluations_z_eval := toF e.z)
+    = toF (r0Eval e ch l1 pi) ∧
+    verify_legacy_r0 (A := F) (alpha := toF ch.alpha) (beta := toF ch.beta) (gamma := toF ch.gamma) (l1_eval := toF l1)
+      (pi_eval := toF pi) (self_evaluations_a_eval := toF e.a) (self_evaluations_b_eval := toF e.b)
+      (self_evaluations_c_eval := toF e.c) (self_evaluations_d_eval := toF e.d)
+      (self_evaluations_s_sigma_1_eval := toF e.s1) (self_evaluations_s_sigma_2_eval := toF e.s2)
+      (self_evaluations_s_sigma_3_eval := toF e.s3) (self_evaluations_z_eval := toF e.z)
+    = toF (r0Eval e ch l1 pi) := by
+  constructor <;>
+  · simp only [verify_r0, verify_legacy_r0, r0Eval, toF_fmul, toF_fadd, toF_fsub, toF_fsq]
+    src_close
+
 end Plonk.WidgetSource
